@@ -40,7 +40,7 @@ theorem safe_stepCore_simple {callF : CallF} {P : Prog} (i : Ins) (s : RSt) (hs 
   | setGlobalFn gid g => simp [Ins.simple] at hs
   | call d f args n => simp [Ins.simple] at hs
   | callInd d f args n => simp [Ins.simple] at hs
-  | uns w => exact Safe.uns _
+  | uns d w => exact Safe.uns _
   | load d src n =>
     exact Safe.bind (safe_readOpd _ _ _ (fun r hr => hu r (by simp [Ins.uses, hr]))) (fun _ => Safe.ok _)
   | store p src n =>
